@@ -6,7 +6,7 @@ Local Open Scope N_scope.
 
 Inductive opt :=
   | WithAuthorizationCodeGrant | WithImplicitGrant | WithClientCredentialsGrant
-  | WithRefreshTokenGrant (lifetime : Z) | WithRefreshTokenRotation
+  | WithRefreshTokenGrant (lifetime : Z) | WithRefreshTokenGrantPol (f : issue_pol) (lifetime : Z) | WithRefreshTokenRotation
   | WithJWTBearerGrant | WithJWTBearerGrantClientAuthnRequired
   | WithCIBAGrant | WithCIBALifetime (secs : Z) | WithCIBAUserCode | WithCIBAJAR | WithCIBAJARRequired
   | WithScopes (l : list scope) | WithOpenIDScopeRequired
@@ -24,7 +24,7 @@ Inductive opt :=
   | WithTokenLifetime (secs : Z).      (* the lifetime the harness's TokenOptionsFunc answers *)
 
 Definition base_config (p : profile) : config :=
-  mkConfig p [] [] [] [] false 0%Z 300%Z false false 0%Z
+  mkConfig p [] [] [] [] false 0%Z 300%Z IssueNever false 0%Z
            false false "" [] false false 0%Z false false false false false
            false 0%Z false false false false false false false false false
            false false false false false false false "" false [].
@@ -38,7 +38,9 @@ Definition apply_opt (o : opt) (c : config) : config :=
   | WithImplicitGrant => c <| cf_grants := (cf_grants c ++ [GImplicit])%list |>
   | WithClientCredentialsGrant => c <| cf_grants := (cf_grants c ++ [GClientCredentials])%list |>
   | WithRefreshTokenGrant l =>
-      c <| cf_grants := (cf_grants c ++ [GRefreshToken])%list |> <| cf_issue_refresh := true |> <| cf_refresh_lifetime := l |>
+      c <| cf_grants := (cf_grants c ++ [GRefreshToken])%list |> <| cf_issue_refresh := IssueAlways |> <| cf_refresh_lifetime := l |>
+  | WithRefreshTokenGrantPol f l =>
+      c <| cf_grants := (cf_grants c ++ [GRefreshToken])%list |> <| cf_issue_refresh := f |> <| cf_refresh_lifetime := l |>
   | WithRefreshTokenRotation => c <| cf_refresh_rotation := true |>
   | WithJWTBearerGrant => c <| cf_grants := (cf_grants c ++ [GJwtBearer])%list |>
   | WithJWTBearerGrantClientAuthnRequired => c <| cf_jwt_bearer_authn_required := true |>
